@@ -206,11 +206,15 @@ def _run_lines_retry(args, lines, **kw):
     return rc, out
 
 
+HASHLINES = {}      # scenario line -> the harness' `# …` side-channel lines (oracle only)
+
+
 def run_harness(exe, line):
     rc, out = _run_lines_retry([exe], [line], env={"CELER_LOG_LOCAL": "error"}, timeout=600)
     I = [l[2:] for l in out if l.startswith("I ")]
     O = [l[2:] for l in out if l.startswith("O ")]
     other = [l for l in out if not l.startswith(("I ", "O ", "#"))]
+    HASHLINES[line] = [l for l in out if l.startswith("# ")]
     return I, O, other
 
 
@@ -262,7 +266,9 @@ def point_expect(rd):
 ORACLE_STATS = {"delivered_slots": 0, "filtered_active_slots": 0,
                 "disagreeing_flag_scenarios": 0,
                 "zero_deposit_steps_due_under_disagreeing_flags": 0,
-                "zero_deposit_steps_in_volume_of_flag_false_callback": 0}
+                "zero_deposit_steps_in_volume_of_flag_false_callback": 0,
+                "empty_batches_right_after_nonempty": 0, "compacted_batches": 0,
+                "action_map_entries": 0, "action_map_pairs_with_count_1": 0}
 
 
 def oracle(line, I, O):
@@ -313,6 +319,7 @@ def oracle(line, I, O):
     nstreams = int(ck.get("streams", 1))
     acount = {}
     scount = {}
+    prev_batch = {}
     calo = {j: [[0.0] * s["n"] for _ in range(nstreams)] for j, s in enumerate(specs)
             if s["kind"] == "c"}
     for k in range(2, len(I)):
@@ -424,8 +431,17 @@ def oracle(line, I, O):
                                 if gv != pe[key]:
                                     bad.append((k, "field-%s%d" % (key, pi),
                                                 f"callback {j} slot {i}: {gv} != {pe[key]}"))
-            else:   # compacted view
+            else:   # compacted view (the harness re-uses ONE output object per stream)
                 idx = [i for i in range(n) if expect[i]]
+                ORACLE_STATS["compacted_batches"] += 1
+                if not idx and prev_batch.get((j, stream), 0) > 0:
+                    ORACLE_STATS["empty_batches_right_after_nonempty"] += 1
+                    if int(kv["n"]) != 0:
+                        bad.append((k, "stale-hits-redelivered",
+                                    f"compacting callback {j}: no slot is due in this iteration but "
+                                    f"{kv['n']} hits were delivered — the previous iteration's "
+                                    f"{prev_batch[(j, stream)]} hits are still in the re-used output"))
+                prev_batch[(j, stream)] = len(idx)
                 if int(kv["n"]) != len(idx):
                     zmiss = [i for i in idx if f64(post[i]["edep"]) == 0.0]
                     if disagree and int(kv["n"]) < len(idx) and zmiss:
@@ -479,6 +495,34 @@ def oracle(line, I, O):
                                 + (" — with one track slot ActionSequence::step skips every "
                                    "order-`post` action whose id is not the slot's post-step "
                                    "action, so the diagnostic never runs" if one else "")))
+                # the string-keyed accessor must list exactly the non-zero (action, particle)
+                # pairs — including those that occurred once — with the counts of the steps taken
+                hl = {l.split()[1]: l.split()[2:] for l in HASHLINES.get(line, []) if len(l.split()) > 1}
+                if "amap" in hl and "alabels" in hl and "plabels" in hl:
+                    amap = {}
+                    for ent in hl["amap"]:
+                        kk, vv = ent.rsplit("=", 1)
+                        amap[kk] = int(vv)
+                    al, pl = hl["alabels"], hl["plabels"]
+                    want_map = {f"{al[a]}~{pl[p]}": n_ for (p, a), n_ in acount.items()
+                                if n_ > 0 and a < len(al) and p < len(pl)}
+                    from_arr = {f"{al[a]}~{pl[p]}": got[p * nact + a] for p in range(nptc)
+                                for a in range(nact) if got[p * nact + a] > 0}
+                    ORACLE_STATS["action_map_entries"] += len(want_map)
+                    ORACLE_STATS["action_map_pairs_with_count_1"] += sum(1 for v_ in want_map.values() if v_ == 1)
+                    one = int(ck.get("slots", 0)) == 1
+                    if amap != want_map and not (one and not amap):
+                        miss = sorted(set(want_map) - set(amap))
+                        wrong = sorted(k_ for k_ in amap if want_map.get(k_) != amap[k_])
+                        bad.append((len(I) - 1, "action-map-differs-from-step-counts",
+                                    "ActionDiagnostic::calc_actions_map() differs from the delivered-step "
+                                    f"counts per (action, particle): missing {[(m_, want_map[m_]) for m_ in miss][:5]}"
+                                    f", wrong {[(w_, amap[w_], want_map.get(w_)) for w_ in wrong][:5]}"))
+                    if amap != from_arr:
+                        miss = sorted(set(from_arr) - set(amap))
+                        bad.append((len(I) - 1, "action-map-differs-from-calc-actions",
+                                    "calc_actions_map() is not the non-zero part of calc_actions(): "
+                                    f"missing {[(m_, from_arr[m_]) for m_ in miss][:5]}"))
             elif w[0] == "s":
                 got = [int(x) for x in w[1:]]
                 want = [scount.get((p, b), 0) for p in range(nptc) for b in range(sbins)]
@@ -591,6 +635,19 @@ def run(ctx):
     n_gen = 60 if quick else 400
     for _ in range(n_gen):
         scenarios.append(gen_scenario(ctx.rng, quick))
+    # fixed (seed-independent) scenarios: compacting callback on one volume only (iterations with
+    # hits are followed by iterations without), and short runs whose action map has pairs that
+    # occurred exactly once
+    scenarios += [
+        "run prob=mock slots=3 prims=5 seed=11 events=2 streams=1 order=none maxsteps=30 warm=1 "
+        "adiag=1 sdiag=0 cbs=det:1ffff:2>0:1",
+        "run prob=mock slots=4 prims=6 seed=5 events=2 streams=2 order=status maxsteps=25 warm=0 "
+        "adiag=1 sdiag=3 cbs=det:10001:3>1:0;raw:10000:1>0:0",
+        "run prob=simple slots=2 prims=1 seed=1 events=1 streams=1 order=none maxsteps=4 warm=0 "
+        "adiag=1 sdiag=0 cbs=raw:1ffff:-:0",
+        "run prob=mock slots=2 prims=3 seed=9 events=1 streams=1 order=none maxsteps=6 warm=0 "
+        "adiag=1 sdiag=0 cbs=raw:1ffff:-:0",
+    ]
     n_dis = 8 if quick else 40
     for _ in range(n_dis):
         scenarios.append(gen_disagree(ctx.rng, quick))
@@ -639,6 +696,16 @@ def run(ctx):
             if act and k < len(O):
                 distinct.add(I[k])
     stats.update(ORACLE_STATS)
+    if not oracle_fail:
+        for k_, what_ in (("empty_batches_right_after_nonempty",
+                           "no compacting callback had an iteration without hits directly after one "
+                           "with hits (re-used output object)"),
+                          ("action_map_pairs_with_count_1",
+                           "no (action, particle) pair occurred exactly once in any run with the "
+                           "action diagnostic")):
+            if ORACLE_STATS[k_] == 0:
+                ctx.violation("coverage:" + k_, what_ + ": the corresponding comparison was not "
+                              "exercised", {"stats": dict(ORACLE_STATS)}, found_input=False)
     if diverged:
         broken.append(f"correspondence: model and implementation differ on {len(diverged)} scenarios")
 
